@@ -99,6 +99,15 @@ def items_text(items):
 OPS = {"<": "CLt", "<=": "CLe", "==": "CEq", "!=": "CNe", ">=": "CGe", ">": "CGt"}
 
 
+def check_desc(i):
+    """descriptions in descending alphabetical order: the order of declaration is what counts, not the names"""
+    return "check%d" % (9 - i)
+
+
+def check_index(desc):
+    return 9 - int(desc[len("check"):])
+
+
 def cid_rows(spec):
     rows = [["D", "Format", spec["format"]]]
     props = []
@@ -128,7 +137,7 @@ def cid_rows(spec):
     rows += late
     names = [f["name"] for f in spec["fields"]]
     for i, c in enumerate(spec.get("checks", [])):
-        desc = "check%d" % i
+        desc = check_desc(i)
         if c["kind"] == "unique":
             rows.append(["C", desc, "IsUnique", ", ".join(names[k] for k in c["cols"])])
         elif c["kind"] == "distinct":
@@ -414,7 +423,7 @@ def gen_spec(rnd, fmt=None, nfields=None, with_checks=True, rec=False, header=No
             w = rnd.randint(1, 3)
             f["length"] = [[w, w]]
         else:
-            f["length"] = rnd.choice([None, None, [[1, 2]], [[None, 2]], [[2, None]], [[1, 1], [3, 3]], [[2, 2]]])
+            f["length"] = rnd.choice([None, None, [[1, 2]], [[None, 2]], [[2, None]], [[1, 1], [3, 3]], [[2, 2]], [[None, 1], [3, None]]])
         if ftype in ("Choice", "Rec"):
             pool = ["a", "b", "ab", "x", "abc", "bb"]
             if fmt == "fixed":
